@@ -38,8 +38,10 @@ def run_units(case, rng, cls):
     facesB = scaled_faces(cls, faces, L)
     gB = Geom(cls, facesB)
     mA, mB = gen.build_mesh(pf, cls, faces), gen.build_mesh(pf, cls, facesB)
+    capable = [k for k in range(g.nd) if AXKIND[cls][k] in ('len', 'ang') and abs(g.w[k][0] - g.w[k][-1]) <= 1e-12 * g.w[k][0]]
+    per = [k for k in capable if rng.random() < 0.25]
     for _ in range(60):
-        spec = gen.gen_bc_spec(rng, g, lams=(1.0, -1.0, 2.5, 0.4))
+        spec = gen.gen_bc_spec(rng, g, periodic_axes=per, lams=(1.0, -1.0, 2.5, 0.4))
         if gen.bc_nonsingular(g, spec):
             break
     specB = {'periodic': spec['periodic'], 'sides': {s: {'kind': v['kind'], 'a': v['a'] * L, 'b': v['b'].copy(), 'c': v['c'] * K} for s, v in spec['sides'].items()}}
@@ -119,11 +121,55 @@ def run_units(case, rng, cls):
                         bad.append(('units-direct', 'step %d (%s, L=%.3g T=%.3g K=%.3g): phi_B/K differs from phi_A by relative %.3g (cond %.3g)' % (step + 1, tset, L, T, K, d, cond)))
                         break
     cov['tset:' + tset] = 1
+    if per:
+        cov['with_periodic'] = 1
     if small:
         cov['small_amplitude'] = 1
     if pow2:
         cov['pow2_scales'] = 1
     return bad, cov, maxerr, meta, faces, spec, (L, T, K), limname if 'tvd' in tset else '', None
+
+
+def run_tvd_homogeneity(case, rng, cls):
+    """operator-level unit independence of the TVD correction: RHS_tvd(u*L/T, K*phi; faces*L) = (K/T) * RHS_tvd(u, phi; faces)
+    for fields whose physical gradients are pushed towards the hard-coded absolute guards by extreme K/L"""
+    nd = NDIM[cls]
+    faces, meta = gen.gen_grid(rng, cls, nmin=2, nmax=5 if nd < 3 else 3)
+    g = Geom(cls, faces)
+    pow2 = True
+    L, T = float(2.0 ** int(rng.integers(-10, 21))), float(2.0 ** int(rng.integers(-10, 11)))
+    K = float(2.0 ** int(rng.integers(-40, 11)))
+    facesB = scaled_faces(cls, faces, L)
+    mA, mB = gen.build_mesh(pf, cls, faces), gen.build_mesh(pf, cls, facesB)
+    eps_ = float(10 ** rng.uniform(-9, 0))
+    base = float(rng.choice([0.0, 1.0]))
+    full = base + eps_ * rng.normal(0, 1, g.full_shape())
+    u, _ = gen.face_arrays(rng, g, 'sign')
+    cov, maxerr, bad = {}, {}, []
+    rows = interior_index(g.dims)
+    worst, wname = 0.0, ''
+    with np.errstate(all='ignore'):
+        for name in LIMITERS:
+            FL = pf.fluxLimiter(name)
+            ra = np.asarray(pf.convectionTVDupwindRHSTerm(gen.facevar(pf, mA, u), pf.CellVariable(mA, full.copy()), FL))[rows]
+            rb = np.asarray(pf.convectionTVDupwindRHSTerm(gen.facevar(pf, mB, [a * L / T for a in u]), pf.CellVariable(mB, full * K), FL))[rows]
+            sc = float(np.max(np.abs(ra))) + 1e-300
+            e = float(np.max(np.abs(rb * (T / K) - ra))) / sc if np.all(np.isfinite(rb)) and np.all(np.isfinite(ra)) else float('inf')
+            cov['tvd_homogeneity_limiters'] = cov.get('tvd_homogeneity_limiters', 0) + 1
+            if e > worst:
+                worst, wname = e, name
+    maxerr['tvd-homogeneity'] = worst
+    # smallest physical gradient scale reached in unit system B (what the probe is about)
+    gradB = K * eps_ / (L * max(float(np.max(w)) for w in g.w))
+    cov['tvd_homogeneity'] = 1
+    if gradB < 1e-15:
+        cov['tvd_homogeneity_below_1e-15'] = 1
+    if worst > 1e-9:
+        bad.append(('tvd-absolute-threshold' if gradB < 1e-13 else 'tvd-homogeneity',
+                    'TVD correction is not homogeneous: RHS_tvd in unit system B (L=%.3g T=%.3g K=%.3g, field amplitude %.3g, gradients ~%.3g in B) '
+                    'differs from (K/T)*RHS_tvd in A by %.3g of max|RHS| (limiter %s)' % (L, T, K, eps_, gradB, worst, wname)))
+    spec = None
+    return bad, cov, maxerr, meta, faces, None, (L, T, K), wname, None
 
 
 def run_linearity(case, rng, cls):
@@ -188,6 +234,8 @@ def run_case(case):
     kind = case['kind']
     if kind == 'units':
         bad, cov, maxerr, meta, faces, spec, LTK, lim, note = run_units(case, rng, cls)
+    elif kind == 'tvd-homogeneity':
+        bad, cov, maxerr, meta, faces, spec, LTK, lim, note = run_tvd_homogeneity(case, rng, cls)
     else:
         bad, cov, maxerr, meta, faces, spec, LTK, lim, note = run_linearity(case, rng, cls)
     g = Geom(cls, faces)
@@ -221,6 +269,9 @@ def plan(tier, seed):
         for rep in range(3 if tier == 'quick' else 60):
             cases.append({'cls': cls, 'kind': 'linearity', 'seed': [seed, 17, ci, i]})
             i += 1
+        for rep in range(6 if tier == 'quick' else 120):
+            cases.append({'cls': cls, 'kind': 'tvd-homogeneity', 'seed': [seed, 17, ci, i]})
+            i += 1
         step = 9 if NDIM[cls] == 3 else 27
         for j in range(0, len(cases), step):
             chunks.append(cases[j:j + step])
@@ -237,7 +288,7 @@ def floors(agg, tier):
     for t in TSETS:
         if agg['cov'].get('tset:' + t, 0) < 20:
             out.append('tset:%s < 20' % t)
-    for k, need in (('unit_steps', 300), ('unit_direct', 100), ('small_amplitude', 20), ('pow2_scales', 30)):
+    for k, need in (('unit_steps', 300), ('unit_direct', 100), ('small_amplitude', 20), ('pow2_scales', 30), ('tvd_homogeneity', 40), ('tvd_homogeneity_below_1e-15', 5)):
         if agg['cov'].get(k, 0) < need:
             out.append('%s < %d' % (k, need))
     return out
